@@ -12,6 +12,7 @@ import BV.C05.Lemmas7
 import BV.C05.Lemmas8
 import BV.C05.Lemmas9
 import BV.C05.Lemmas14
+import BV.C05.Lemmas15
 import BV.Generated.C05
 namespace BV.C05
 open Treap
@@ -314,6 +315,31 @@ theorem cursor_mixed {K V : Type} (cmp : K → K → Ordering) (h : OrdLaws cmp)
 /-- the repaired algorithm on the F-C05-a witness: First, Next, Next, Prev now stands on key 2 -/
 example : ([MOp.first, .next, .next, .prev].foldl (fStep cmpNat witnessSh witnessA witnessB) curInit).m.entry
     = some (2, 20) := by decide
+
+/-- What the cursors enumerate is what `Get` returns. `layerView keys rem below` is the view a
+(repaired) merge cursor produces over the view `below` (by `cursor_mixed`, `cursor_forward_view`):
+sorted merge of `keys` with the entries of `below` not shadowed by `keys`/`rem`. Two levels — the
+transaction's pending layer over the cache layer over leveldb — give a strictly sorted view whose
+lookup, for EVERY key, equals the transaction's `Get` (`txGet`); one level gives a reader's `Get`.
+Hypotheses: sorted layers, and a key is never both pending for update and for removal in one layer
+(`putKey`/`deleteKey` and `commitTx` maintain that). -/
+theorem cursor_view_matches_get (k : Key) (ldb cKeys cRem pKeys pRem : KV)
+    (hl : SortedKeys cmpB ldb) (hc : SortedKeys cmpB cKeys) (hp : SortedKeys cmpB pKeys)
+    (hdc : ∀ k, (lookup cmpB k cRem).isSome = true → lookup cmpB k cKeys = none)
+    (hdp : ∀ k, (lookup cmpB k pRem).isSome = true → lookup cmpB k pKeys = none) :
+    SortedKeys cmpB (Lemmas.layerView pKeys pRem (Lemmas.layerView cKeys cRem ldb)) ∧
+    lookup cmpB k (Lemmas.layerView pKeys pRem (Lemmas.layerView cKeys cRem ldb)) =
+      txGet true pKeys pRem ⟨ldb, cKeys, cRem⟩ k ∧
+    lookup cmpB k (Lemmas.layerView cKeys cRem ldb) = Snap.get ⟨ldb, cKeys, cRem⟩ k := by
+  have hs1 := Lemmas.layerView_sorted cKeys cRem ldb hc hl
+  refine ⟨Lemmas.layerView_sorted _ _ _ hp hs1, ?_, ?_⟩
+  · rw [Lemmas.lookup_layerView k pKeys pRem _ hp hs1 hdp, Lemmas.lookup_layerView k cKeys cRem ldb hc hl hdc]
+    unfold txGet Snap.get
+    cases lookup cmpB k pRem <;> cases lookup cmpB k pKeys <;> cases lookup cmpB k cRem <;>
+      cases lookup cmpB k cKeys <;> simp
+  · rw [Lemmas.lookup_layerView k cKeys cRem ldb hc hl hdc]
+    unfold Snap.get
+    cases lookup cmpB k cRem <;> cases lookup cmpB k cKeys <;> simp
 
 /-! ### (d) nested buckets as key prefixes -/
 
